@@ -187,7 +187,38 @@ def check_case(sub, case):
                               "end": expected["end"]}, evals=0)
 
 
+_JOINERS = ["\x1f", "\x1e", "\x1d", "\x1c", "\t", " ", "|", "/", ":", ";", "-", "_", ".", "\\", "\u2028", "'", ","]
+
+
+def _join_collision_cases():
+    """Two-field keys whose values differ although their concatenation with a joiner is equal: IsUnique compares the
+    values 'in all of K', so both rows are accepted - and a real duplicate of either is still rejected."""
+    cases = []
+    for joiner in _JOINERS:
+        first = ["a" + joiner + "b", "c", "x"]
+        second = ["a", "b" + joiner + "c", "x"]
+        for keys in (("k1", "k2"), ("k2", "k1")):
+            for rows in ([first, second], [second, first], [first, second, list(first)], [first, second, list(second)]):
+                cases.append({"joiner": joiner, "keys": list(keys), "rows": [list(r) for r in rows]})
+    return cases
+
+
+def _join_collisions(ctx):
+    sub = ctx.sub("join-collisions")
+    for item in _join_collision_cases():
+        spec = _small_spec(tuple(item["keys"]), "<=", 4, False)
+        rows = item["rows"]
+        text = gen_tables.delimited_text(rows)
+        case = {"spec": spec, "rows": rows, "via": "stream"}
+        judge(sub, case, spec, rows, rows, lambda mode: io.StringIO(text, newline=""), "<io>", "join")
+        sub.case(("join", item["joiner"], tuple(item["keys"]), len(rows)), True, ["join-collision"],
+                 sample={"keys": item["keys"], "rows": rows} if item["joiner"] == "\x1f" and len(rows) == 3 else None,
+                 evals=0)
+    ctx.merge(sub)
+
+
 def run(ctx):
+    _join_collisions(ctx)
     max_len = ctx.n(4, 5)
     shards = ctx.workers * 2
     ctx.par(_sweep_shard, [(i, shards, max_len) for i in range(shards)])
